@@ -542,14 +542,19 @@ Definition same_float (a b : float) : bool :=
 End PF.
 
 (* ================================================================== correspondence cases *)
-Definition fval := val float.
+(* generic in the float type: instantiated with PrimFloat below and with Flocq's binary64
+   in Model/ScalarsB64.v *)
+Section Cases.
+Variable F : Type.
+Variable fo : fops F.
+Variable same : F -> F -> bool.   (* bit-level identity of floats *)
 
-Definition val_same (a b : fval) : bool :=
+Definition val_same (a b : val F) : bool :=
   match a, b with
   | VNull, VNull => true
   | VBool x, VBool y => Bool.eqb x y
   | VInt x, VInt y => Z.eqb x y
-  | VFloat x, VFloat y => PF.same_float x y
+  | VFloat x, VFloat y => same x y
   | VStr x, VStr y => list_eqb Z.eqb x y
   | VList x, VList y => list_eqb Z.eqb x y
   | VTuple x, VTuple y => list_eqb Z.eqb x y
@@ -557,23 +562,23 @@ Definition val_same (a b : fval) : bool :=
   end.
 
 (* results are observed after yaql's output conversion: tuples come out as lists *)
-Definition canon (v : fval) : fval := match v with VTuple l => VList l | _ => v end.
+Definition canon (v : val F) : val F := match v with VTuple l => VList l | _ => v end.
 
 (* OFloatUnchecked: a float result whose value the executable instance does not model
    (`mod` with an infinite or NaN operand); only the dispatch is compared *)
-Inductive obs := OVal (v : fval) | OErr (e : err) | OFloatUnchecked | OOtherExc.
+Inductive obs := OVal (v : val F) | OErr (e : err) | OFloatUnchecked | OOtherExc.
 
 (* `a OP b`, or `(a OP b) OP2 c` when c_then is given *)
 Record case := {
   c_cfg : cfg;
   c_op : op;
-  c_args : list fval;
-  c_then : option (op * fval);
+  c_args : list (val F);
+  c_then : option (op * val F);
   c_ran : list tag;        (* the payloads the implementation ran, in order *)
   c_obs : obs;
 }.
 
-Definition res_matches (r : res float) (o : obs) : bool :=
+Definition res_matches (r : res F) (o : obs) : bool :=
   match r, o with
   | RVal (VFloat _), OFloatUnchecked => true
   | RErr EUnmodelled, OFloatUnchecked => true
@@ -585,19 +590,32 @@ Definition res_matches (r : res float) (o : obs) : bool :=
 
 Definition tags_of (d : dres) : list tag := match d with DPayload t => [t] | _ => [] end.
 
-Definition run_case (table : op -> optable) (c : case) : list tag * res float :=
-  let d1 := dispatch (table (c_op c)) (map (kind_of float) (c_args c)) in
-  let r1 := eval_op float PF.ops table (c_op c) (c_args c) in
+Definition run_case (table : op -> optable) (c : case) : list tag * res F :=
+  let d1 := dispatch (table (c_op c)) (map (kind_of F) (c_args c)) in
+  let r1 := eval_op F fo table (c_op c) (c_args c) in
   match c_then c with
   | None => (tags_of d1, r1)
   | Some (o2, z) =>
     match r1 with
-    | RVal v => (tags_of d1 ++ tags_of (dispatch (table o2) [kind_of float v; kind_of float z]),
-                 eval_op float PF.ops table o2 [v; z])
+    | RVal v => (tags_of d1 ++ tags_of (dispatch (table o2) [kind_of F v; kind_of F z]),
+                 eval_op F fo table o2 [v; z])
     | RErr _ => (tags_of d1, r1)
     end
   end.
 
-Definition case_ok (tables : cfg -> op -> optable) (c : case) : bool :=
+Definition gcase_ok (tables : cfg -> op -> optable) (c : case) : bool :=
   let '(tags, r) := run_case (tables (c_cfg c)) c in
   list_eqb tag_eqb tags (c_ran c) && res_matches r (c_obs c).
+End Cases.
+
+Arguments OVal {F}. Arguments OErr {F}. Arguments OFloatUnchecked {F}. Arguments OOtherExc {F}.
+Arguments Build_case {F}.
+Arguments c_cfg {F}. Arguments c_op {F}. Arguments c_args {F}. Arguments c_then {F}.
+Arguments c_ran {F}. Arguments c_obs {F}.
+
+(* the PrimFloat instance *)
+Definition fval := val float.
+Definition pcase := case float.
+Definition case_ok (tables : cfg -> op -> optable) (c : pcase) : bool :=
+  gcase_ok float PF.ops PF.same_float tables c.
+Definition prun_case (table : op -> optable) (c : pcase) := run_case float PF.ops table c.
